@@ -81,12 +81,11 @@ class ErrorRate(ClassificationMoment):
 
     def gamma(self, predictor: Callable) -> pd.Series:
         """Return the gamma values for the given predictor."""
-        pred = predictor(self.X)
-        if isinstance(pred, np.ndarray):
-            # TensorFlow is returning an (n,1) array, which results
-            # in the subtraction in the 'error =' line generating an
-            # (n,n) array
-            pred = np.squeeze(pred)
+        # Rows are paired by position: a pandas result is not to be aligned on its index labels.
+        # TensorFlow is returning an (n,1) array, which results
+        # in the subtraction in the 'error =' line generating an
+        # (n,n) array
+        pred = np.squeeze(np.asarray(predictor(self.X)))
         signed_errors = self.tags[_LABEL] - pred
         total_fn_cost = np.sum(signed_errors[signed_errors > 0] * self.fn_cost)
         total_fp_cost = np.sum(-signed_errors[signed_errors < 0] * self.fp_cost)
